@@ -171,7 +171,7 @@ pub fn dump_corpus(args: &[String]) -> i32 {
 		put("csv", i, mvtsrc::gen_csv(&mut rng).text.as_bytes());
 		put("vpl", i, crate::mon::c18::random_vpl_text(&mut rng).as_bytes());
 		let layers = imvt::gen_layers(&mut rng, &imvt::GenOpts::default());
-		let enc = imvt::EncOpts { dup_keys: rng.bool(), dup_vals: rng.bool(), unused_entries: rng.bool(), foreign_field_order: rng.bool() };
+		let enc = imvt::EncOpts { dup_keys: rng.bool(), dup_vals: rng.bool(), unused_entries: rng.bool(), foreign_field_order: rng.bool(), split_packed: rng.chance(0.3) };
 		put("mvt", i, &imvt::encode_tile(&layers, &enc, &mut rng));
 	}
 	let valid = [
